@@ -611,6 +611,23 @@ func init() {
 		p.stubs["os.Environ"] = args[0]
 		return nil
 	}
+	// ---- C15 call-site clause: the real loader is replaced by a recorder of Config.Env. Every call
+	// fails ("loader unavailable"), so a fall-back that retries with another environment is seen too.
+	vxExtra["vxLoadCalls"] = func(in *Interp, p *Path, fr *Frame, args []Val, site ssa.CallInstruction) Val {
+		rec, _ := p.stubs["packages.Load.envs"].([]Val)
+		return mkInt(int64(len(rec)))
+	}
+	vxExtra["vxLoadEnv"] = func(in *Interp, p *Path, fr *Frame, args []Val, site ssa.CallInstruction) Val {
+		rec, _ := p.stubs["packages.Load.envs"].([]Val)
+		k := argInt(p, args[0])
+		if k < 0 || k >= len(rec) {
+			p.end("unsupported", "vxLoadEnv index")
+		}
+		if sv, ok := rec[k].(SliceVal); ok {
+			return sv
+		}
+		return newSlice(nil)
+	}
 	vxExtra["vxFoldHasPrefix"] = func(in *Interp, p *Path, fr *Frame, args []Val, site ssa.CallInstruction) Val {
 		return p.strHasPrefix(p.strToLower(args[0].(StringVal)), p.strToLower(args[1].(StringVal)))
 	}
@@ -637,6 +654,20 @@ func init() {
 
 func (in *Interp) registerIntrinsics() {
 	I := in.intr
+	I["golang.org/x/tools/go/packages.Load"] = func(in *Interp, p *Path, fr *Frame, a []Val, s ssa.CallInstruction) Val {
+		cfgT := derefType(s.Common().StaticCallee().Signature.Params().At(0).Type())
+		var env Val = newSlice(nil)
+		if cp, ok := a[0].(*Pointer); ok && !cp.isNil() {
+			env = cp.load().(*StructVal).f[fieldIndex(cfgT, "Env")]
+		}
+		rec, _ := p.stubs["packages.Load.envs"].([]Val)
+		p.stubs["packages.Load.envs"] = append(append([]Val(nil), rec...), env)
+		rt := s.Common().StaticCallee().Signature.Results().At(0).Type()
+		return TupleVal{zero(rt), in.mkErr(concStr("loader unavailable"), nil, "")}
+	}
+	I["go/token.NewFileSet"] = func(in *Interp, p *Path, fr *Frame, a []Val, s ssa.CallInstruction) Val {
+		return &Pointer{model: &OpaqueVal{name: "fileset"}}
+	}
 	// ---- strings / bytes
 	I["strings.HasPrefix"] = func(in *Interp, p *Path, fr *Frame, a []Val, s ssa.CallInstruction) Val {
 		return p.strHasPrefix(a[0].(StringVal), a[1].(StringVal))
